@@ -57,10 +57,15 @@ func unquoteString(s string) (string, error) {
 	}
 
 	var escaping = false
-	var result = make([]rune, 0, len(s))
+	var result = make([]byte, 0, len(s))
 	for i := 0; i < len(s); {
 		r, size := utf8.DecodeRuneInString(s[i:])
 		i += size
+		if r == utf8.RuneError && size == 1 && !escaping {
+			// not valid UTF-8: keep the byte as it is, like the fast path above.
+			result = append(result, s[i-1])
+			continue
+		}
 
 		if escaping {
 			if r == 'u' {
@@ -84,7 +89,8 @@ func unquoteString(s string) (string, error) {
 
 		escaping = ((r == '\\') && !escaping)
 		if !escaping {
-			result = append(result, r)
+			var buf [utf8.UTFMax]byte
+			result = append(result, buf[:utf8.EncodeRune(buf[:], r)]...)
 		}
 	}
 	return string(result), nil
